@@ -4,17 +4,42 @@
 package gen
 
 import (
+	"sync"
+
 	"pgregory.net/rapid"
+
+	"verifharness/internal/ref"
 )
 
 // Piece is one stretch of a generated blob.
 type Piece struct {
-	Kind   string `json:"k"`           // rand | zero | const | period | text | repeat
+	Kind   string `json:"k"`           // rand | zero | const | period | text | repeat | hashwin (48 bytes whose window hash is H)
 	Len    int    `json:"n"`           // bytes
 	Seed   uint64 `json:"s,omitempty"` // content seed (rand, period, text)
 	B      byte   `json:"b,omitempty"` // const byte
 	Period int    `json:"p,omitempty"` // period length
 	Off    int    `json:"o,omitempty"` // repeat: source offset in what precedes
+	H      uint32 `json:"h,omitempty"` // hashwin: the window hash (a hashwin piece is always 48 bytes long)
+}
+
+var (
+	hashwinMu    sync.Mutex
+	hashwinCache = map[[2]uint64][]byte{}
+)
+
+func hashWindow(h uint32, seed uint64) []byte {
+	hashwinMu.Lock()
+	defer hashwinMu.Unlock()
+	k := [2]uint64{uint64(h), seed}
+	if b, ok := hashwinCache[k]; ok {
+		return b
+	}
+	w := ref.WindowWithHash(h, seed)
+	if len(hashwinCache) > 256 {
+		hashwinCache = map[[2]uint64][]byte{}
+	}
+	hashwinCache[k] = w[:]
+	return w[:]
 }
 
 type splitmix uint64
@@ -54,8 +79,11 @@ func RandBytes(n int, seed uint64) []byte {
 // Expand materialises a piece list.
 func Expand(ps []Piece) []byte {
 	total := 0
-	for _, p := range ps {
-		total += p.Len
+	for i := range ps {
+		if ps[i].Kind == "hashwin" {
+			ps[i].Len = ref.Window
+		}
+		total += ps[i].Len
 	}
 	out := make([]byte, 0, total)
 	for _, p := range ps {
@@ -63,6 +91,8 @@ func Expand(ps []Piece) []byte {
 			continue
 		}
 		switch p.Kind {
+		case "hashwin":
+			out = append(out, hashWindow(p.H, p.Seed)...)
 		case "zero":
 			out = append(out, make([]byte, p.Len)...)
 		case "const":
